@@ -27,9 +27,10 @@ macro_rules! array_eye {
     (String, $($tt:tt)*) => {{
         compile_error!("only `Numeric` types are supported")
     }};
-    ($tt:ty, $n:expr) => {
-        array_eye!($tt, $n, $n, 0)
-    };
+    ($tt:ty, $n:expr) => {{
+        let n = $n;
+        array_eye!($tt, n, n, 0)
+    }};
     ($tt:ty, $n:expr, $m:expr) => {
         array_eye!($tt, $n, $m, 0)
     };
